@@ -409,7 +409,7 @@ def c05(ctx):
 SPECS = {
     "C05": {"fn": c05, "level": "exploration",
             "technique": "runtime monitoring at process boundaries under the race detector: offline checker over a monotonic event log written by scriptable helper peers (exactly-once dispatch, matching and alive server, overlap bound, cleanup) plus the runner's output, against the selection computed by independent models",
-            "text": "The race-built runner is executed with helper peers that log, at their own boundary, every ServerCompatRequest, ClientCompatRequest and arriving RPC; the checker requires the multiset of issued permutations to equal the independently computed selection (minus those whose server was scripted not to start, which must be reported), each request to address a live server whose logged configuration equals the permutation's axes (probed by TCP/TLS/QUIC handshake or observed by the very instance that received the RPC), the test-name header, at most --max-servers overlapping server lifetimes, a stop for every started server and termination. Dedicated scenarios let one server instance end on its own (exit status 0 and non-zero) in the middle of a large TLS batch whose hand-over is paced by a slow-reading helper client: the bytes handed to the client after the logged exit must not exceed what the stdin pipe (capacity logged by the client) could already hold, and every permutation is either handed over once or reported. The check is inconclusive unless client-certificate permutations were actually dispatched and checked. Further scenarios: helper servers that ignore SIGTERM (process lifetimes sampled from /proc: none may outlive the run, never more than --max-servers alive at once), raw-request suites in server mode (test name header also on raw requests), and client mode, where a slow helper client dials every server address it has been told so far at each request: never more than --max-servers in-process servers may accept connections (reference and grpc-go passes together).",
+            "text": "The race-built runner is executed with helper peers that log, at their own boundary, every ServerCompatRequest, ClientCompatRequest and arriving RPC; the checker requires the multiset of issued permutations to equal the independently computed selection (minus those whose server was scripted not to start, which must be reported), each request to address a live server whose logged configuration equals the permutation's axes (probed by TCP/TLS/QUIC handshake or observed by the very instance that received the RPC), the test-name header, at most --max-servers overlapping server lifetimes, a stop for every started server and termination. Dedicated scenarios let one server instance end on its own (exit status 0 and non-zero) in the middle of a large TLS batch whose hand-over is paced by a slow-reading helper client: the bytes handed to the client after the logged exit must not exceed what the stdin pipe (capacity logged by the client) could already hold, and every permutation is either handed over once or reported. The check is inconclusive unless client-certificate permutations were actually dispatched and checked. Further scenarios: helper servers that ignore SIGTERM (process lifetimes sampled from /proc: none may outlive the run, never more than --max-servers alive at once), raw-request suites in server mode (test name header also on raw requests), and client mode, where a slow helper client dials every server address it has been told so far at each request: never more than --max-servers in-process servers may accept connections (reference and grpc-go passes together); and a helper client that exits with status 1 after k answers while several batches are in flight and the helper servers need 20 ms or 1.2 s to leave after the stop request: every started server has logged its exit (CLOCK_MONOTONIC) before the runner's own exit was observed, none is alive in /proc right after it, and the run is a failure.",
             "note": "Interleavings of the batch goroutines are sampled by varying --max-servers, GOMAXPROCS and peer latencies; alive intervals are logged subsets of real lifetimes (the bound check cannot raise a false alarm).",
             "assumptions": ["CLOCK_MONOTONIC is shared by all processes of a run", "model_*_test.go compute the selected set"]},
     "C04": {"fn": c04, "level": "exploration",
